@@ -151,7 +151,10 @@ def _drive(job):
                 p = rng.randrange(1, max(2, _pos(req, F.fmax) - 10))
                 F.fmin = _val(req, p)
             elif op == "fmax":
-                p = rng.randrange(_pos(req, F.fmin) + 10, 2*len(req) + 2)
+                # (a short list of required frequencies may leave less than
+                # ten positions above fmin)
+                top = 2*len(req) + 2
+                p = rng.randrange(min(_pos(req, F.fmin) + 10, top - 1), top)
                 F.fmax = _val(req, p)
             elif op == "signal":
                 F.signal = rng.choice([-1, 0, 1])
@@ -310,6 +313,11 @@ def run(tier, replay=None):
         traces = pool.map(_drive, seeds, chunksize=4)
     for t in traces:
         if t["err"]:
+            # an exception raised by emg3d on a valid input is a finding; one
+            # raised by the driver itself is a fault of the machinery
+            if C.crash_in_code_under_test(t["err"]) is None:
+                raise C.MachineryError("driver failed (seed "
+                                       f"{t['seed']}):\n" + t["err"])
             rep.violation(f"C20:error:seed={t['seed']}",
                           "unexpected exception while driving Fourier: "
                           + t["err"].splitlines()[0], {"seed": t["seed"]})
